@@ -360,9 +360,17 @@ func runCrash(p *Plan, tree *refTree, res *simcore.Result) {
 			img := model.CrashImage(mode, dr, stats)
 			res.Reboots++
 			rb := &rebooter{p: p, tree: tree, h: h, res: res, engine: engine, cut: c, draw: d, lost: lost}
+			if p.Nested > 0 && (p.MaxCuts == 0 || dr.Bool(0.5) || hint) {
+				rb.nest = &nestRec{}
+			}
 			v := rb.run(model, img, mem)
 			fp = fp.U64(c).U64(uint64(d)).U64(rb.headNum)
-			if v != nil && d > 0 {
+			second := false
+			if v == nil && rb.nest != nil {
+				v = rb.secondCrash(model, img, dr, stats, &fp)
+				second = v != nil
+			}
+			if v != nil && d > 0 && !second {
 				if mp := tornMeta(model, img); mp != "" {
 					// the power-loss image holds a freezer table .meta file that is neither of the
 					// contents whole writes can leave (torn / zero-filled extension of the rewrite):
@@ -424,6 +432,24 @@ type rebooter struct {
 	headNum uint64
 	// read from the image before the chain touches it
 	imgFrozen, imgHeader, imgFinal uint64
+	imgBlock, imgSnap              uint64 // numbers of the image's head block / head snap block markers
+	// nested crashes: a level-0 reboot with nest set records its own writes (key-value
+	// units and file events) so that a second crash can be cut into the restart; a level-1
+	// reboot runs on such an image (log2/cut2 = the first restart's units up to the cut)
+	level int
+	nest  *nestRec
+	log2  []simdisk.KVOp
+	cut2  uint64
+}
+
+// nestRec is what a recorded restart leaves behind for the second-crash images.
+type nestRec struct {
+	base    *memorydb.Database // key-value image the restart started from
+	root    string             // scratch root the restart ran on (removed by now)
+	rec     *simos.Recorder
+	log     []simdisk.KVOp
+	openSeq uint64 // last sequence number of the start-up (NewBlockChain + quiescence)
+	endSeq  uint64
 }
 
 func (rb *rebooter) modeKey() string {
@@ -445,9 +471,33 @@ func (rb *rebooter) run(model *simdisk.FSModel, img map[string][]byte, mem *memo
 		simcore.Harnessf("write image: %v", err)
 	}
 	simos.ResetLocks()
+	if rb.nest != nil {
+		rb.nest.base = simdisk.CopyMem(mem)
+	}
 	kv := simdisk.FromMem(mem, nil)
 	if rb.p.Knobs.ValueScale > 1 {
 		kv.ValueSizeScale = rb.p.Knobs.ValueScale
+	}
+	if rb.nest != nil {
+		rb.nest.root = nroot
+		rb.nest.rec = simos.NewRecorder(nroot)
+		rb.nest.rec.NextSeq = kv.Clock.Next
+		simos.Install(rb.nest.rec)
+		defer func() {
+			// runs after the chain was stopped (deferred below): the restart's record is complete
+			simos.Install(nil)
+			rb.nest.log = kv.Snapshot()
+			rb.nest.endSeq = kv.Clock.Now()
+			if v == nil {
+				full := simdisk.ModelFromImage(model, img, nroot)
+				for i := range rb.nest.rec.Events {
+					full.Apply(&rb.nest.rec.Events[i])
+				}
+				if err := full.VerifyAgainstDisk(func(p string) bool { return filepath.Base(p) == "FLOCK" }); err != nil {
+					simcore.Harnessf("simos model of the restart diverged from the real files: %v", err)
+				}
+			}
+		}()
 	}
 	w := &world{knobs: rb.p.Knobs, tree: rb.tree, root: nroot, clock: kv.Clock, kv: kv, engine: rb.engine, res: rb.res, bubble: true,
 		live: map[logKey]bool{}, universe: rb.tree.universe(), trace: simcore.NewHash(), stateFP: simcore.NewHash(), headNode: -1, finalNode: -2, dupLogBlock: -2, crashed: true, unexecuted: map[int]bool{}, badBlock: -2}
@@ -483,6 +533,8 @@ func (rb *rebooter) run(model *simdisk.FSModel, img map[string][]byte, mem *memo
 		rb.probeRewindWindow(db)
 		rb.imgFrozen, _ = db.Ancients()
 		rb.imgHeader = headNumber(db)
+		rb.imgBlock, _ = rawdb.ReadHeaderNumber(db, rawdb.ReadHeadBlockHash(db))
+		rb.imgSnap, _ = rawdb.ReadHeaderNumber(db, rawdb.ReadHeadFastBlockHash(db))
 		if fh := rawdb.ReadFinalizedBlockHash(db); fh != (common.Hash{}) {
 			rb.imgFinal, _ = rawdb.ReadHeaderNumber(db, fh)
 		}
@@ -537,6 +589,9 @@ func (rb *rebooter) run(model *simdisk.FSModel, img map[string][]byte, mem *memo
 	}
 	w.quiesce()
 	w.col.take()
+	if rb.nest != nil {
+		rb.nest.openSeq = kv.Clock.Now()
+	}
 	rb.headNum = w.bc.CurrentBlock().Number.Uint64()
 	return guard("reboot-oracle", func() *simcore.Violation { return rb.judge(w, bound, boundWhy) })
 }
@@ -619,6 +674,14 @@ func (rb *rebooter) judge(w *world, bound int64, boundWhy string) *simcore.Viola
 				// NewBlockChain's "Truncating ancient chain" step sees them is a race
 				v.Key = "reboot-freezer-beyond-head:finalized-marker-above-head-after-interrupted-sethead"
 				v.Msg += fmt.Sprintf(" (image: %d frozen, head header #%d, finalized #%d)", rb.imgFrozen, rb.imgHeader, rb.imgFinal)
+			} else if rb.level > 0 && cv.head == 0 && rb.imgBlock == 0 && rb.imgFrozen > rb.imgHeader+1 && rb.imgSnap >= rb.imgFrozen-1 {
+				// second crash inside the first restart's repair: setHeadBeyondRoot(repair) had moved
+				// the block head to genesis (below the freezer, "force") and hc.SetHead was lowering
+				// the header head step by step, the freezer not yet truncated, the snap block marker
+				// untouched. NewBlockChain's "Truncating ancient chain" step skips a genesis block
+				// head and a snap block at or above the freezer, so nothing truncates the freezer
+				v.Key = "reboot-freezer-beyond-head:second-crash-inside-repair-rewind-block-head-at-genesis"
+				v.Msg += fmt.Sprintf(" (image: %d frozen, head header #%d, head block #%d, snap block #%d)", rb.imgFrozen, rb.imgHeader, rb.imgBlock, rb.imgSnap)
 			}
 			return v
 		}
@@ -891,6 +954,15 @@ func (rb *rebooter) lastUnitIsReorgDeletion(head uint64) bool {
 	log := rb.h.kvlog
 	n := sort.Search(len(log), func(i int) bool { return log[i].Seq > rb.cut })
 	n -= rb.lost
+	if rb.level > 0 {
+		// second crash: the last mutation unit of the first restart before the cut, if any
+		for i := len(rb.log2) - 1; i >= 0; i-- {
+			if rb.log2[i].Seq <= rb.cut2 && rb.log2[i].Kind != simdisk.OpSync {
+				log, n = rb.log2, i+1
+				break
+			}
+		}
+	}
 	if n <= 0 {
 		return false
 	}
@@ -942,4 +1014,102 @@ func tornMeta(model *simdisk.FSModel, img map[string][]byte) string {
 		}
 	}
 	return ""
+}
+
+// secondCrash cuts a second crash into the restart that rb just ran (rb.nest holds the
+// restart's key-value units and file events): images = the first crash image + the restart's
+// writes up to a cut inside the start-up phase (NewBlockChain's repair: head rewind, freezer
+// truncation, snapshot / journal handling), process crash or power loss for the files. Each
+// image is rebooted and judged like a first-level image; the re-import target is unchanged
+// (the first restart reached it).
+func (rb *rebooter) secondCrash(model *simdisk.FSModel, img map[string][]byte, dr *simcore.Rand, stats map[string]int, fp *simcore.Hash64) *simcore.Violation {
+	nd := rb.nest
+	// candidate cuts: sequence numbers of the start-up phase at which something was written
+	var cand []uint64
+	for i := range nd.log {
+		if nd.log[i].Seq <= nd.openSeq && nd.log[i].Kind != simdisk.OpSync {
+			cand = append(cand, nd.log[i].Seq)
+		}
+	}
+	kvUnits := len(cand)
+	for i := range nd.rec.Events {
+		if ev := &nd.rec.Events[i]; ev.Seq <= nd.openSeq && ev.Kind != simos.EvSync && ev.Kind != simos.EvSyncDir {
+			cand = append(cand, ev.Seq)
+		}
+	}
+	if len(cand) == 0 {
+		rb.res.Probe("second-crash-skipped-restart-wrote-nothing")
+		return nil
+	}
+	if kvUnits > 0 {
+		rb.res.Probe("restart-repaired-key-value-store")
+	}
+	if len(cand) > kvUnits {
+		rb.res.Probe("restart-wrote-files")
+	}
+	sort.Slice(cand, func(i, j int) bool { return cand[i] < cand[j] })
+	n := rb.p.Nested
+	if rb.p.MaxCuts == 0 && n < len(cand) && len(cand) <= 12 {
+		n = len(cand) // thorough: every cut of a short repair
+	}
+	seen := map[uint64]bool{}
+	for i := 0; i < n; i++ {
+		c2 := cand[dr.Intn(len(cand))]
+		if n == len(cand) {
+			c2 = cand[i]
+		}
+		if dr.Bool(0.5) && c2 > 0 {
+			c2-- // right before the write
+		}
+		power := dr.Bool(0.5)
+		if seen[c2*2+b2u(power)] {
+			continue
+		}
+		seen[c2*2+b2u(power)] = true
+		m2 := simdisk.ModelFromImage(model, img, nd.root)
+		for j := range nd.rec.Events {
+			if nd.rec.Events[j].Seq <= c2 {
+				m2.Apply(&nd.rec.Events[j])
+			}
+		}
+		mode, draw := simdisk.ProcessCrash, 0
+		if power {
+			mode, draw = simdisk.PowerLoss, 1
+		}
+		img2 := m2.CrashImage(mode, dr, stats)
+		mem2 := simdisk.MaterialiseKVOn(nd.base, nd.log, c2)
+		rb.res.Reboots++
+		stats["second-crash"]++
+		rb2 := &rebooter{p: rb.p, tree: rb.tree, h: rb.h, res: rb.res, engine: rb.engine, cut: rb.cut, draw: draw, lost: rb.lost, level: 1, log2: nd.log, cut2: c2}
+		v := rb2.run(m2, img2, mem2)
+		*fp = fp.U64(c2).U64(b2u(power)).U64(rb2.headNum)
+		if v == nil {
+			continue
+		}
+		if power {
+			if mp := tornMeta(m2, img2); mp != "" {
+				rb.res.Probe("torn-meta-image-violation")
+				v.Msg = fmt.Sprintf("torn freezer metadata file %s in the image; symptom [%s / %s]: %s", mp[len(nd.root):], v.Oracle, v.Key, v.Msg)
+				v.Key = "reboot-failed:power-loss:torn-freezer-metadata"
+			}
+		}
+		what := "process crash"
+		if power {
+			what = "power loss"
+		}
+		v.Msg = fmt.Sprintf("SECOND crash (%s) at seq %d of the restart on the first crash image (start-up phase ends at %d, restart ends at %d; the first restart alone passed every check)\n%s", what, c2, nd.openSeq, nd.endSeq, v.Msg)
+		if isKnown(v.Key) {
+			rb.res.KnownHit(v.Key)
+			continue
+		}
+		return v
+	}
+	return nil
+}
+
+func b2u(b bool) uint64 {
+	if b {
+		return 1
+	}
+	return 0
 }
